@@ -5,13 +5,15 @@ use crate::model::DecT;
 use std::cell::RefCell;
 use std::collections::HashMap;
 
-pub const SCALE: i64 = 10_000;
+pub const SCALE: i64 = 10_000; // prices: four decimals
+pub const RSCALE: i64 = 1_000_000; // fee rates: six decimals
 pub const CONTRACT_TOKEN: &str = "contract";
 pub const CONTRACT_ADDR: &str = cosmwasm_std::testing::MOCK_CONTRACT_ADDR;
 
 thread_local! {
     static REV_ID: RefCell<HashMap<String, String>> = RefCell::new(HashMap::new());
     static REV_DEC: RefCell<HashMap<String, DecT>> = RefCell::new(HashMap::new());
+    static REV_RATE: RefCell<HashMap<String, DecT>> = RefCell::new(HashMap::new());
 }
 
 fn base_uuid(tok: &str) -> String {
@@ -64,14 +66,15 @@ pub fn unrender_id(s: &str) -> String {
     REV_ID.with(|m| m.borrow().get(s).cloned()).unwrap_or_else(|| format!("raw:{}", s))
 }
 
-fn plain(n: i64) -> String {
+fn plain(n: i64, scale: i64) -> String {
     let neg = n < 0;
     let a = n.unsigned_abs();
-    let int = a / SCALE as u64;
-    let frac = a % SCALE as u64;
+    let int = a / scale as u64;
+    let frac = a % scale as u64;
     let mut s = int.to_string();
     if frac != 0 {
-        let f = format!("{:04}", frac);
+        let digits = (scale as f64).log10().round() as usize;
+        let f = format!("{:0width$}", frac, width = digits);
         s.push('.');
         s.push_str(f.trim_end_matches('0'));
     }
@@ -82,12 +85,21 @@ fn plain(n: i64) -> String {
     }
 }
 
-/// decimal token -> string
+/// price token -> string
 pub fn render_dec(d: &DecT) -> String {
+    render_scaled(d, SCALE)
+}
+
+/// fee-rate token -> string
+pub fn render_rate(d: &DecT) -> String {
+    render_scaled(d, RSCALE)
+}
+
+fn render_scaled(d: &DecT, scale: i64) -> String {
     if let Some(raw) = d.sp.strip_prefix("raw:") {
         return raw.to_string();
     }
-    let p = plain(d.n);
+    let p = plain(d.n, scale);
     let s = match d.sp.as_str() {
         "plain" => p,
         "t0" => {
@@ -118,14 +130,24 @@ pub fn render_dec(d: &DecT) -> String {
         "bad_space" => format!(" {}", p),
         other => format!("?{}?{}", other, p),
     };
-    REV_DEC.with(|m| {
-        m.borrow_mut().entry(s.clone()).or_insert_with(|| d.clone());
-    });
+    if scale == SCALE {
+        REV_DEC.with(|m| {
+            m.borrow_mut().entry(s.clone()).or_insert_with(|| d.clone());
+        });
+    } else {
+        REV_RATE.with(|m| {
+            m.borrow_mut().entry(s.clone()).or_insert_with(|| d.clone());
+        });
+    }
     s
 }
 
 /// Parse a decimal string numerically (own parser, no library): value * SCALE if exact.
 pub fn parse_scaled(s: &str) -> Option<i64> {
+    parse_scaled_to(s, 4)
+}
+
+pub fn parse_scaled_to(s: &str, digits: usize) -> Option<i64> {
     let (neg, body) = match s.strip_prefix('-') {
         Some(r) => (true, r),
         None => (false, s.strip_prefix('+').unwrap_or(s)),
@@ -148,16 +170,16 @@ pub fn parse_scaled(s: &str) -> Option<i64> {
         v = v.checked_mul(10)?.checked_add((c as u8 - b'0') as i128)?;
     }
     let mut frac = fp.to_string();
-    while frac.len() > 4 {
+    while frac.len() > digits {
         if !frac.ends_with('0') {
             return None;
         }
         frac.pop();
     }
-    while frac.len() < 4 {
+    while frac.len() < digits {
         frac.push('0');
     }
-    v = v.checked_mul(SCALE as i128)?;
+    v = v.checked_mul(10i128.pow(digits as u32))?;
     v += frac.parse::<i128>().ok()?;
     if v > 2_000_000_000 {
         return None;
@@ -172,6 +194,14 @@ pub fn unrender_dec(s: &str) -> DecT {
         return d;
     }
     DecT { n: parse_scaled(s).unwrap_or(0), sp: format!("raw:{}", s) }
+}
+
+/// string -> fee-rate token
+pub fn unrender_rate(s: &str) -> DecT {
+    if let Some(d) = REV_RATE.with(|m| m.borrow().get(s).cloned()) {
+        return d;
+    }
+    DecT { n: parse_scaled_to(s, 6).unwrap_or(0), sp: format!("raw:{}", s) }
 }
 
 pub fn render_acct(tok: &str) -> String {
